@@ -217,6 +217,18 @@ def r07_6(ctx) -> None:
     ctx.check(names == sorted(T.EC_CURVES), "R07.6", None, None, "EC crv names", f"crv names {names}", f"= {sorted(T.EC_CURVES)}", construct="EC crv names")
     gk = P.func("rfc8037.okp_key:get_key_curve")
     consts = {const_value(r.value) for r in fn_nodes(gk) if isinstance(r, ast.Return)}
+    if None in consts:
+        # a name returned after a search: every value it can hold
+        import ast as _ast
+        from .common import resolve_all
+        consts = set()
+        for r in fn_nodes(gk):
+            if isinstance(r, ast.Return) and r.value is not None:
+                for t_ in resolve_all(eng, gk, r.value):
+                    try:
+                        consts.add(_ast.literal_eval(t_))
+                    except Exception:
+                        consts.add(None)
     ctx.check(consts == T.OKP_CURVES, "R07.6", gk, gk.node, "OKP crv names", f"OKP crv names {sorted(x for x in consts if x)}", f"= {sorted(T.OKP_CURVES)}", construct="OKP crv names")
 
 
